@@ -102,7 +102,8 @@ def C01(ctx):
             "destruction control-dependent on the protection test (HP binary_search, HE era interval, stamp <= tail stamp, LFRC claim); epoch schemes: "
             "flag-fence-epoch order, three epochs, retire into the current epoch, orphan slot detached before the epoch that re-uses it is published; "
             "LFRC counter modified by RMW only; exception safety of HE slot hand-over; guard typestate of every scheme (a non-empty guard always holds its "
-            "protection unit: region entry / slot / reference); every container reclaims only after a successful unlink; "
+            "protection unit: region entry / slot / reference); every container reclaims only after a successful unlink, never dereferences a guard after it "
+            "gave up its protection, and dereferences pointers read from shared memory only through the guard that acquired them (origin analysis, frozen exemptions); "
             "memory orders of all reclaimers.", "that the schemes are correct under all interleavings and weak executions (stamp-it's list protocol only through its annotated edges)")
 
 
@@ -293,7 +294,8 @@ def C12(ctx):
     deque.grow_exception_safety(ctx)
     return ("Decides the structural half of the Chase-Lev deque: publish order, decrement/restore-or-commit pairing in try_pop, last-item CAS, "
             "thief read-before-CAS, mask kind discipline and (by exhaustive finite evaluation of the loop-free index arithmetic) that grow() re-indexes "
-            "the live range with the same mapping as get_entry from every top offset; memory orders incl. the four seq_cst sites.",
+            "the live range with the same mapping as get_entry from every top offset; 64-bit monotone indices; allocation before bookkeeping in grow(); "
+            "memory orders incl. the four seq_cst sites.",
             "linearizability of owner/thief histories")
 
 
@@ -334,6 +336,8 @@ def C16(ctx):
     queues.kfifo(ctx)
     return ("Decides: no wait construct (spin on a lock bit / flag / pending write, mutex acquisition) is reachable in the resolved call graph from any "
             "operation documented lock-free or wait-free, any guard operation of any reclaimer, seqlock::load with more than one slot or left_right::read; "
+            "quiet cycles whose every condition is invariant under solo execution (a loop that cannot come out differently the next time round); the weak "
+            "bounded-queue operations return whenever their cell is behind (finite execution); helping swings expect a snapshot of the field they swing; "
             "the bounded k-FIFO index fits its field (a solo livelock otherwise).", "a numeric bound on solo steps; loops whose termination rests on data-structure invariants")
 
 
